@@ -212,3 +212,109 @@ Section Surface.
                   (opn l = true -> pt_trigger T KSuperscript = false) /\ W p l
     end.
 End Surface.
+
+(** * A boolean recogniser for [W] (used to discharge concrete instances by computation) *)
+Section Decide.
+  Context {V : Type}.
+  Variable T : ptab V.
+
+  Definition is_some {A} (o : option A) : bool := match o with Some _ => true | None => false end.
+  Definition follow_okb (s : @sx V) (k : kind) : bool :=
+    noabs T (pt_prec T k) s && (negb (opn s) || negb (pt_trigger T k)).
+  Definition delim_okb (s : @sx V) (k : kind) : bool := follow_okb s k && (pt_prec T k =? 0).
+
+  Fixpoint Wb (p : nat) (s : @sx V) {struct s} : bool :=
+    match s with
+    | SNum _ => true
+    | SAns => pt_ans T
+    | SConst k => is_plain k && is_some (pt_const T k)
+    | SGroup k e => is_plain k && negb (is_some (pt_const T k)) && is_some (pt_open T k) &&
+                    Wb 0 e && delim_okb e (closer T k)
+    | SCall1 f a => match pt_fn T f with Some (F1 _) => true | _ => false end && Wb 0 a && delim_okb a KRightParen
+    | SCall2 f a b => match pt_fn T f with Some (F2 _) => true | _ => false end &&
+                      Wb 0 a && delim_okb a KComma && Wb 0 b && delim_okb b KRightParen
+    | SCallN f args =>
+        match pt_fn T f with
+        | Some (FList _ ez) => match args with [] => ez | _ => true end
+        | _ => false
+        end &&
+        match args with [] => true | x :: _ => negb (kind_eqb (hdk (print T x)) KRightParen) end &&
+        (fix all (l : list sx) : bool :=
+           match l with
+           | [] => true
+           | x :: xs => Wb 0 x && delim_okb x (match xs with [] => KRightParen | _ => KComma end) && all xs
+           end) args
+    | SNeg e => pt_neg T && Wb (pt_neg_level T) e
+    | SPos e => pt_pos T && Wb (pt_neg_level T) e
+    | SJuxt a r => capable a && Wb 0 a && starts_trigger T r && Wb (pt_impl_level T) r
+    | SBin k l r => is_some (pt_infix T k) && (p <? pt_prec T k) && follow_okb l k && Wb p l && Wb (rlevel T k) r
+    | SFact l => pt_bang T && negb (is_some (pt_infix T KExclamationMark)) && (p <? pt_prec T KExclamationMark) &&
+                 follow_okb l KExclamationMark && Wb p l
+    | SFactJuxt l r => pt_bang T && negb (is_some (pt_infix T KExclamationMark)) && (p <? pt_prec T KExclamationMark) &&
+                 follow_okb l KExclamationMark && Wb p l && starts_trigger T r && Wb (pt_impl_level T) r
+    | SPost k l => negb (is_some (pt_infix T k)) && negb (kind_eqb k KExclamationMark && pt_bang T) &&
+                   is_some (pt_postconst T k) && (p <? pt_prec T k) && follow_okb l k && Wb p l
+    | SSup l v => pt_sup T && (p <? pt_prec T KSuperscript) && follow_okb l KSuperscript && Wb p l
+    end.
+
+  Lemma follow_okb_sound s k : follow_okb s k = true -> follow_ok T s k.
+  Proof.
+    unfold follow_okb, follow_ok. intros H. apply andb_prop in H. destruct H as [H1 H2]. split; [exact H1|].
+    intros O. rewrite O in H2. simpl in H2. now apply negb_true_iff in H2.
+  Qed.
+  Lemma delim_okb_sound s k : delim_okb s k = true -> delim_ok T s k.
+  Proof.
+    unfold delim_okb, delim_ok. intros H. apply andb_prop in H. destruct H as [H1 H2]. split.
+    - now apply follow_okb_sound.
+    - now apply Nat.eqb_eq.
+  Qed.
+
+  Arguments follow_okb : simpl never.
+  Arguments delim_okb : simpl never.
+
+  Ltac bs :=
+    repeat match goal with
+           | H : _ && _ = true |- _ => apply andb_prop in H; destruct H
+           end;
+    repeat match goal with
+           | H : follow_okb _ _ = true |- _ => apply follow_okb_sound in H; destruct H
+           | H : delim_okb _ _ = true |- _ => apply delim_okb_sound in H
+           | H : (_ <? _) = true |- _ => apply Nat.ltb_lt in H
+           | H : negb _ = true |- _ => apply negb_true_iff in H
+           end.
+  Ltac opt :=
+    repeat match goal with
+           | H : is_some ?o = true |- _ => destruct o eqn:?; [clear H|discriminate H]
+           | H : is_some ?o = false |- _ => destruct o eqn:?; [discriminate H|clear H]
+           end.
+
+  Lemma Wb_sound : forall s p, Wb p s = true -> W T p s.
+  Proof.
+    induction s as [v| |k|k e IHe|f a IHa|f a b IHa IHb|f args IHargs|e IHe|e IHe|a r IHa IHr
+                   |k l r IHl IHr|l IHl|l r IHl IHr|k l IHl|l v IHl] using sx_ind2; intros p H; simpl in H |- *.
+    - trivial.
+    - exact H.
+    - bs. opt. split; [assumption|discriminate].
+    - bs. opt. split; [assumption|]. split; [reflexivity|]. split; [discriminate|]. split; [auto|assumption].
+    - bs. split; [destruct (pt_fn T f) as [[u| |]|]; try discriminate; eauto|]. split; auto.
+    - bs. split; [destruct (pt_fn T f) as [[|o|]|]; try discriminate; eauto|].
+      split; [auto|]. split; [assumption|]. split; [auto|assumption].
+    - apply andb_prop in H. destruct H as [H Hall]. apply andb_prop in H. destruct H as [Hf Hhd].
+      split; [|split].
+      + destruct (pt_fn T f) as [[| |g ez]|]; try discriminate. exists g, ez. split; [reflexivity|].
+        intros ->. exact Hf.
+      + intros x xs ->. intros E. rewrite E in Hhd. discriminate.
+      + clear Hf Hhd. induction args as [|x xs IH]; [trivial|].
+        inversion IHargs as [|? ? Hx Hxs]; subst.
+        apply andb_prop in Hall. destruct Hall as [Hall Hrest]. apply andb_prop in Hall. destruct Hall as [Wx Dx].
+        split; [now apply Hx|]. split; [now apply delim_okb_sound|]. now apply IH.
+    - bs. split; auto.
+    - bs. split; auto.
+    - bs. repeat split; auto.
+    - bs. opt. destruct p0 as [b lvl]. split; [eauto|]. repeat split; auto.
+    - bs. opt. repeat split; auto.
+    - bs. opt. repeat split; auto.
+    - bs. opt. repeat split; auto; discriminate.
+    - bs. repeat split; auto.
+  Qed.
+End Decide.
